@@ -317,7 +317,7 @@ func (d *driver) drop(c Cmd) {
 	coll := int(atomic.LoadInt32(&flag.collected))
 	d.emit(Ev{Ev: "Gc", Obj: c.Obj, Kind: o.kind, Fail: "none", Ok: 1, Dir: c.Dir, Coll: coll})
 	if inflight {
-		d.keys["gc:"+o.kind+":"+c.Dir+":"+d.parkedDirs(o)] = true
+		d.keys["gc:"+o.kind+":"+c.Dir+":"+d.parkedDirs(o)+dyn(o.fd)] = true
 	}
 	if coll == 1 {
 		// never touch this IO's epoll again: it holds a pointer into the collected object
